@@ -84,6 +84,9 @@ func ValidateOutputs(args []any) (TypeToValue, error) {
 			if k != reflect.Struct && k != reflect.Map {
 				return nil, fmt.Errorf("need map or pointer to struct, got pointer to %s", k)
 			}
+			if k == reflect.Map && v.IsNil() {
+				return nil, fmt.Errorf("got pointer to nil %s", v.Type().Name())
+			}
 		}
 		t := v.Type()
 		if _, ok := typeToValue[t]; ok {
